@@ -160,13 +160,11 @@ def ob_text_roundtrip(budget_s=60):
         k = symx.fresh_int("k")
         b = Beat(symx.SymInt(k), 48)
         s = str(b)
-        p = symx.token_payload(s)
-        if p is None or p[0] != "dec" or p[2] != 3:
-            return False, ("text form is not a 3-decimal rendering", s)
         back = Beat.from_str(s)
-        # and the rendering is the 3-decimal rounding of the beat: |1000*b - m| <= 1/2
-        m = p[1]
-        close = z3.And(2 * (1000 * k - 48 * m) <= 48, 2 * (48 * m - 1000 * k) <= 48)
+        # and the text denotes the 3-decimal rounding of the beat: |1000*b - m| <= 1/2 with m = 1000 * (value of the text)
+        tv = symx.FracShim(s)
+        close = z3.And(symx.bterm(tv * 1000 - b * 1000 <= Fraction(1, 2)), symx.bterm(b * 1000 - tv * 1000 <= Fraction(1, 2)),
+                       symx.bterm((tv * 1000) == (tv * 1000).__floor__()))
         return z3.And(symx.bterm(back == b), close, z3.BoolVal(type(back) is Beat)), ("text",)
     return symx.explore(run, budget_s=budget_s)
 
